@@ -117,6 +117,8 @@ impl PartialOrd for Object {
             (Object::Char(a), Object::Char(b)) => a.partial_cmp(b),
             (Object::Byte(a), Object::Byte(b)) => a.partial_cmp(b),
             (Object::Integer(a), Object::Integer(b)) => a.partial_cmp(b),
+            (Object::Integer(a), Object::Float(b)) => (*a as f64).partial_cmp(b),
+            (Object::Float(a), Object::Integer(b)) => a.partial_cmp(&(*b as f64)),
             (Object::Float(a), Object::Float(b)) => a.partial_cmp(b),
             (Object::Bool(a), Object::Bool(b)) => a.partial_cmp(b),
             _ => None,
